@@ -173,5 +173,17 @@ func DIDFaults(sc *Scenario) []Mut {
 		{"resolver-unpublished-false", genExp, setAns(DIDAnswer{Published: BP(false)})},
 		{"resolver-unpublished-absent", genExp, setAns(DIDAnswer{Published: nil})},
 		{"resolver-published-true", "accept", setAns(DIDAnswer{Published: BP(true)})},
+		// documents with several verification methods, in every order: the FIRST state-info
+		// entry decides
+		{"resolver-doc-state-info-first", "accept", setAns(DIDAnswer{VMs: []VMJ{{StateInfo: true, Published: BP(true)}, {}, {}}})},
+		{"resolver-doc-state-info-middle", "accept", setAns(DIDAnswer{VMs: []VMJ{{}, {StateInfo: true, Published: BP(true)}, {}}})},
+		{"resolver-doc-state-info-last", "accept", setAns(DIDAnswer{VMs: []VMJ{{}, {}, {StateInfo: true, Published: BP(true)}}})},
+		{"resolver-doc-state-info-only", "accept", setAns(DIDAnswer{VMs: []VMJ{{StateInfo: true, Published: BP(true)}}})},
+		{"resolver-doc-two-state-infos-published-first", "accept", setAns(DIDAnswer{VMs: []VMJ{{StateInfo: true, Published: BP(true)}, {StateInfo: true, Published: BP(false)}}})},
+		{"resolver-doc-two-state-infos-unpublished-first", genExp, setAns(DIDAnswer{VMs: []VMJ{{}, {StateInfo: true, Published: BP(false)}, {StateInfo: true, Published: BP(true)}}})},
+		{"resolver-doc-two-state-infos-absent-first", genExp, setAns(DIDAnswer{VMs: []VMJ{{StateInfo: true}, {StateInfo: true, Published: BP(true)}, {}}})},
+		{"resolver-doc-unpublished-first-key-last", genExp, setAns(DIDAnswer{VMs: []VMJ{{StateInfo: true, Published: BP(false)}, {}}})},
+		{"resolver-doc-no-methods", "reject", setAns(DIDAnswer{VMs: []VMJ{}})},
+		{"resolver-doc-keys-only", "reject", setAns(DIDAnswer{VMs: []VMJ{{}, {}}})},
 	}
 }
